@@ -376,6 +376,14 @@ func (c *UConn) handshakeContext(ctx context.Context) (ret error) {
 	if c.isClient {
 		err := c.BuildHandshakeState()
 		if err != nil {
+			if c.quic != nil {
+				// UQUICConn.Start, HandleData and Close wait for these channels to be
+				// closed and then report handshakeErr, exactly as on the exit below.
+				c.handshakeErr = fmt.Errorf("%w%.0w", err, AlertError(alertInternalError))
+				close(c.quic.blockedc)
+				close(c.quic.signalc)
+				return c.handshakeErr
+			}
 			return err
 		}
 	}
